@@ -35,8 +35,15 @@ def main():
     nt = import_nutree()
     first = {}
     count = collections.Counter()
+    import re
+    from checks import SPECS
+    from simkit.checkmain import all_open_patterns
+    avoid = []
+    if "--avoid" in sys.argv:
+        avoid = [re.compile(x) for x in all_open_patterns()[1]]
+    ov = SPECS.get(prop, {}).get("cfg_overrides")
     for i in range(runs):
-        r = history_run(0, prop, i, "quick", nt=nt, engine=engine)
+        r = history_run(0, prop, i, "quick", nt=nt, engine=engine, avoid=avoid, cfg_overrides=ov)
         for (step, p, c, t, d) in r.violations:
             sig = (p, c, t)
             count[sig] += 1
